@@ -841,6 +841,174 @@ def init_problem(rng, shape=None):
     return problem, matrix
 
 
+def init_boundary_problem(rng):
+    """a chain of jobs on a line whose time windows leave no slack: the only tour that serves everything visits the chain in
+    order, every service start is pinned (to the end or the start of its window, or to the arrival), and an optional break
+    (offset interval or time window; with / without location; tagged or not) and / or a reload sit in the chain so that they
+    start exactly at the latest or the earliest moment of their interval.  Returns (problem, matrix)."""
+    xs = [0]                      # position of every matrix index; index 0 = depot
+
+    def loc_at(x):
+        if x in xs and rng.chance(2, 3):
+            return xs.index(x)
+        xs.append(x)
+        return len(xs) - 1
+
+    def win(a, b):
+        return [rfc(EPOCH0 + a), rfc(EPOCH0 + b)]
+
+    m = rng.range(2, 4)
+    n_breaks = rng.choice([0, 1, 1, 1, 1, 2])
+    with_reload = rng.chance(1, 3)
+    offset_kinds = [rng.chance(1, 2) for _ in range(n_breaks)]
+    # chain: jobs 1..m, break(s) after job kb (>= 1), reload after job kr (1 <= kr < m)
+    after = {}
+    for b in range(n_breaks):
+        after.setdefault(rng.range(1, m), []).append(('break', b))
+    kr = rng.range(1, m - 1) if with_reload else None
+    if with_reload:
+        lst = after.setdefault(kr, [])
+        lst.insert(rng.below(len(lst) + 1), ('reload', 0))
+    t = 0
+    x = 0
+    jobs, breaks, reloads = [], [], []
+    two_tagged = n_breaks == 2
+    pinned = False
+
+    def interval(a, dur_zero_ok=True):
+        """an interval for something that arrives at a: returns (lo, hi, service start, mode)"""
+        mode = rng.choice(['at-latest', 'at-latest', 'at-earliest', 'wait', 'point', 'interior'])
+        if mode == 'at-latest':
+            lo, hi = max(0, a - rng.choice([0, 1, 5, 50])), a
+        elif mode == 'at-earliest':
+            lo, hi = a, a + rng.choice([0, 1, 5, 50])
+        elif mode == 'wait':
+            w = rng.choice([1, 3, 20])
+            lo, hi = a + w, a + w + rng.choice([0, 1, 10])
+        elif mode == 'point':
+            lo, hi = a, a
+        else:
+            lo, hi = max(0, a - rng.range(1, 30)), a + rng.range(1, 30)
+        return lo, hi, max(a, lo), mode
+
+    for k in range(1, m + 1):
+        step = rng.choice([0, 3, 7, 9, 11, 20, 31])
+        if k == 1 and step == 0 and rng.chance(1, 2):
+            step = 9
+        x2 = x + step
+        li = loc_at(x2)
+        a = t + abs(x2 - x)
+        dur = rng.choice([0, 1, 1, 10, 60])
+        mode = rng.choice(['at-end', 'at-end', 'at-start', 'wait', 'point', 'free', 'two'])
+        place = {'location': {'index': li}, 'duration': dur}
+        s0 = a
+        if mode == 'at-end':
+            place['times'] = [win(max(0, a - rng.choice([0, 1, 9, 100])), a)]
+        elif mode == 'at-start':
+            place['times'] = [win(a, a + rng.choice([0, 1, 9, 100]))]
+        elif mode == 'wait':
+            w = rng.choice([1, 4, 30])
+            s0 = a + w
+            place['times'] = [win(s0, s0 + rng.choice([0, 2, 50]))]
+        elif mode == 'point':
+            place['times'] = [win(a, a)]
+        elif mode == 'two':
+            # pinned to the end of the first window; a second window starts right after the service ends (gap >= 1 second)
+            g = rng.choice([1, 1, 2, 40])
+            place['times'] = [win(max(0, a - rng.choice([0, 3, 30])), a), win(a + dur + g, a + dur + g + rng.choice([0, 10, 500]))]
+        if rng.chance(1, 4):
+            place['tag'] = 'tg%d' % k
+        jobs.append({'id': 'job%d' % k, 'deliveries': [{'places': [place], 'demand': [1]}]})
+        t = s0 + dur
+        x = x2
+        for what, b in after.get(k, []):
+            if what == 'break':
+                where = rng.choice(['none', 'none', 'none', 'here', 'ahead', 'two-located', 'two-anywhere'])
+                bx = x if where in ('none', 'here', 'two-anywhere') else x + rng.choice([2, 5, 12])
+                a = t + abs(bx - x)
+                bdur = rng.choice([0, 2, 2, 30])
+                lo, hi, s0, bmode = interval(a)
+                pl = {'duration': bdur}
+                if where in ('here', 'ahead', 'two-located'):
+                    pl['location'] = {'index': loc_at(bx)}
+                places = [pl]
+                # alternative places: a break has a location on all of its places or on none (breaks.rs asserts it)
+                if where == 'two-located':
+                    places.append({'duration': bdur, 'location': {'index': loc_at(bx + rng.choice([40, 90]))}})
+                elif where == 'two-anywhere':
+                    places.append({'duration': bdur + rng.choice([5, 60])})
+                if two_tagged or rng.chance(1, 3):
+                    for i, q in enumerate(places):
+                        q['tag'] = 'b%d%s' % (b + 1, 'xy'[i])
+                br = {'time': [lo, hi] if offset_kinds[b] else win(lo, hi), 'places': places}
+                pol = rng.choice([None, None, 'skip-if-no-intersection', 'skip-if-arrival-before-end'])
+                if pol:
+                    br['policy'] = pol
+                breaks.append((lo, hi, br))
+                t, x = s0 + bdur, bx
+            else:
+                rx = rng.choice([0, 0, x, x + 4])
+                a = t + abs(rx - x)
+                rdur = rng.choice([0, 5, 20])
+                rl = {'location': {'index': loc_at(rx)}, 'duration': rdur}
+                s0 = a
+                if rng.chance(1, 2):
+                    lo, hi, s0, _ = interval(a)
+                    rl['times'] = [win(lo, hi)]
+                if rng.chance(2, 3):
+                    rl['tag'] = 'r1'
+                reloads.append(rl)
+                if rng.chance(1, 3):         # a second reload place at the same location: only the tag tells them apart
+                    rl['tag'] = 'r1'
+                    r2 = {'location': dict(rl['location']), 'duration': rdur, 'tag': 'r2'}
+                    reloads.insert(rng.below(2), r2)
+                t, x = s0 + rdur, rx
+    # window breaks of one shift must be disjoint (E1303): turn a clashing second one into an offset break
+    wins = [(lo, hi) for i, (lo, hi, br) in enumerate(breaks) if not offset_kinds[i]]
+    if len(wins) == 2 and not (wins[0][1] < wins[1][0] or wins[1][1] < wins[0][0]):
+        offset_kinds[1] = True
+        breaks[1][2]['time'] = [breaks[1][0], breaks[1][1]]
+    any_offset = any(offset_kinds[:len(breaks)])
+    back = abs(x - 0)
+    shift = {'start': {'earliest': rfc(EPOCH0), 'location': {'index': 0}}}
+    if any_offset:
+        shift['start']['latest'] = rfc(EPOCH0)          # E1307: offset breaks need a fixed departure
+    else:
+        r = rng.below(3)
+        if r == 0:
+            shift['start']['latest'] = rfc(EPOCH0)
+        elif r == 1:
+            shift['start']['latest'] = rfc(EPOCH0 + rng.choice([5, 100]))
+    if rng.chance(3, 4):
+        end_at = 0 if rng.chance(3, 4) else rng.below(len(xs))
+        shift['end'] = {'latest': rfc(EPOCH0 + t + abs(x - xs[end_at]) + rng.choice([0, 1, 500])), 'location': {'index': end_at}}
+    if breaks:
+        shift['breaks'] = [br for _, _, br in breaks]
+        if rng.chance(1, 2):
+            shift['breaks'] = shift['breaks'][::-1]
+    if reloads:
+        shift['reloads'] = reloads
+    if rng.chance(1, 3):
+        ex = rng.choice(xs[1:] or [5])
+        jobs.append({'id': 'extra', 'deliveries': [{'places': [{'location': {'index': xs.index(ex) if ex in xs else loc_at(ex)}, 'duration': rng.choice([0, 10])}], 'demand': [1]}]})
+    cap = max(kr, m - kr) if with_reload else rng.choice([m + 1, 10])
+    vehicle = {'typeId': 'type1', 'vehicleIds': ['v1_%d' % (i + 1) for i in range(rng.choice([1, 1, 1, 2]))],
+               'profile': {'matrix': 'car'}, 'costs': {'fixed': rng.choice([10.0, 20.0]), 'distance': 1.0, 'time': 1.0},
+               'shifts': [shift], 'capacity': [cap]}
+    if rng.chance(1, 2):
+        jobs = rng.shuffle(jobs)
+    problem = {'plan': {'jobs': jobs}, 'fleet': {'vehicles': [vehicle], 'profiles': [{'name': 'car'}]}}
+    tt = [abs(a - b) for a in xs for b in xs]
+    matrix = {'profile': 'car', 'travelTimes': tt, 'distances': [v * 7 for v in tt]}
+    return problem, matrix
+
+
+def gen_init_boundary(rng):
+    problem, matrix = init_boundary_problem(rng)
+    return {'op': 'init', 'scenario': 'boundary', 'problem': json.dumps(problem), 'matrix': json.dumps(matrix),
+            'generations': rng.choice([1, 2, 5, 10])}
+
+
 def gen_init(rng, shape=None):
     problem, matrix = init_problem(rng, shape)
     return {'op': 'init', 'problem': json.dumps(problem), 'matrix': json.dumps(matrix), 'generations': rng.choice([1, 2, 5])}
@@ -891,6 +1059,155 @@ def written_activities(problem, written):
     return out
 
 
+VEHICLE_SPECIFIC = ('break', 'reload', 'recharge')
+
+
+def span_of(w):
+    return ('w', unrfc(w[0]), unrfc(w[1]))
+
+
+def init_vehicle_singles(problem):
+    """the conditional jobs job_reader.rs builds (read_optional_breaks, read_reloads): job id -> (places, tags) with
+    places = (location index | None, duration, [span]); spans are ('w', start, end | None) or ('o', start, end)"""
+    out = {}
+    for v in problem['fleet']['vehicles']:
+        for si, shift in enumerate(v['shifts']):
+            optional = [b for b in shift.get('breaks') or [] if 'places' in b]
+            for bi, b in enumerate(optional, 1):
+                tm = b['time']
+                span = span_of(tm) if isinstance(tm[0], str) else ('o', int(tm[0]), int(tm[1]))
+                places = [((pl['location']['index'] if pl.get('location') else None), int(pl['duration']), [span]) for pl in b['places']]
+                tags = [(i, pl['tag']) for i, pl in enumerate(b['places']) if pl.get('tag') is not None]
+                for vid in v['vehicleIds']:
+                    out['%s_break_%d_%d' % (vid, si, bi)] = (places, tags, 'break')
+            for ri, r in enumerate(shift.get('reloads') or [], 1):
+                times = [span_of(w) for w in r['times']] if r.get('times') is not None else [('w', 0, None)]
+                places = [(r['location']['index'], int(r['duration']), times)]
+                tags = [(0, r['tag'])] if r.get('tag') is not None else []
+                for vid in v['vehicleIds']:
+                    out['%s_reload_%d_%d' % (vid, si, ri)] = (places, tags, 'reload')
+    return out
+
+
+def span_term(sp):
+    if sp[0] == 'o':
+        return 'SOffset %d %d' % (sp[1], sp[2])
+    return 'SWindow %d %s' % (sp[1], 'None' if sp[2] is None else '(Some %d)' % sp[2])
+
+
+def vsingle_term(jid, places, tags):
+    ps = '; '.join('mk_place %s %d [%s]' % ('None' if loc is None else '(Some %d)' % loc, dur, '; '.join(span_term(x) for x in times))
+                   for loc, dur, times in places)
+    ts = '; '.join('(%d%%nat, %s)' % (i, cstr(t)) for i, t in tags)
+    return 'mk_single %s [%s] [%s]' % (cstr(jid), ps, ts)
+
+
+def written_tours(written):
+    """every activity of the written solution as read_init_solution resolves it (get_activity_time, activity / stop location)"""
+    out = []
+    for tour in written.get('tours', []):
+        start = unrfc(tour['stops'][0]['time']['departure'])
+        acts = []
+        for stop in tour['stops']:
+            transit = 'location' not in stop
+            for a in stop['activities']:
+                loc = (a.get('location') or stop.get('location') or {'index': 0})['index']
+                t = a.get('time')
+                tm = (unrfc(t['start']), unrfc(t['end'])) if t else (unrfc(stop['time']['arrival']), unrfc(stop['time']['departure']))
+                acts.append({'type': a['type'], 'commute': a.get('commute') is not None, 'transit': transit, 'start': start, 'loc': loc,
+                             'time': tm, 'job_id': a['jobId'], 'tag': a.get('jobTag')})
+        out.append({'vid': tour['vehicleId'], 'type': tour['typeId'], 'shift': tour.get('shiftIndex', 0), 'acts': acts})
+    return out
+
+
+def solver_tours(problem, impl):
+    """the solver's tours (harness dump `orig`) as sact lists for the model of the writer; None when a value is fractional"""
+    jobs = {j['id']: j for j in problem['plan']['jobs']}
+    vs = init_vehicle_singles(problem)
+    first_loc = {(t['vehicleId'], t.get('shiftIndex', 0)): t['stops'][0]['location']['index'] for t in impl['written'].get('tours', [])}
+    out = []
+    for r in impl['orig']['routes']:
+        key = (r['vehicle_id'], r['shift'])
+        if not r['seq'] or key not in first_loc:
+            continue
+        acts, vacts = list(r['acts']), list(r['vacts'])
+        sas = []
+        for e in r['seq']:
+            if e[0] in VEHICLE_SPECIFIC:
+                d = vacts.pop(0)
+                places, tags, _ = vs[d['job_id']]
+                single = vsingle_term(d['job_id'], places, tags)
+                vt, sub = '(Some %s)' % cstr(e[0]), 0
+            else:
+                d = acts.pop(0)
+                single = single_term(init_singles(jobs[d['job_id']])[d['sub']])
+                vt, sub = 'None', d['sub']
+            if d.get('frac'):
+                return None
+            sas.append('mk_sact %s %s %s %d%%nat (%s) %d (%d, %s) %d %d' % (
+                cstr(d['job_id']), vt, cstr(e[0]), sub, single, d['loc'], d['tw'][0],
+                'None' if d['tw'][1] is None else '(Some %d)' % d['tw'][1], d['arr'], d['dur']))
+        out.append((key, 'run_write_tour %d %d [%s]' % (r['start_dep'], first_loc[key], '; '.join(sas))))
+    return out
+
+
+def init_write_term(problem, impl):
+    st = solver_tours(problem, impl)
+    if st is None:
+        return '[]'
+    return '[' + '; '.join(t for _, t in st) + ']'
+
+
+def init_compare_write(c, impl, wr):
+    """the model of the writer (type, job id, tag, route start as the reader derives it, location, time of every job activity)
+    against the written document"""
+    problem = json.loads(c['problem'])
+    st = solver_tours(problem, impl)
+    if st is None:
+        return None
+    doc = {(t['vid'], t['shift']): [a for a in t['acts'] if a['type'] not in ('departure', 'arrival')] for t in written_tours(impl['written'])}
+    if len(st) != len(wr):
+        return 'model of the writer evaluated %d tours, %d expected' % (len(wr), len(st))
+    for (key, _), macts in zip(st, wr):
+        dacts = doc.get(key, [])
+        if len(dacts) != len(macts):
+            return 'tour %s: %d job activities written, the model of the writer has %d' % (key, len(dacts), len(macts))
+        for d, m in zip(dacts, macts):
+            mty, mjid, mtag, mstart, mloc, mtime = m            # (type, job id, tag, start, loc, (ts, te))
+            mine = (mty, mjid, opt_z(mtag), mstart, mloc, mtime[0], mtime[1])
+            theirs = (d['type'], d['job_id'], d['tag'], d['start'], d['loc'], d['time'][0], d['time'][1])
+            if mine != theirs:
+                return 'tour %s: written activity (type, job id, tag, route start, location, time) %s, model of the writer %s' % (key, theirs, mine)
+    return None
+
+
+def init_read_term(problem, written):
+    """run_read_init: the whole written document through the model of read_init_solution"""
+    ix = []
+    allj = []
+    for j in problem['plan']['jobs']:
+        sgs = init_singles(j)
+        allj.append(j['id'])
+        if len(sgs) > 1:
+            ix.append('(%s, JMulti [%s])' % (cstr(j['id']), '; '.join(single_term(x) for x in sgs)))
+        else:
+            ix.append('(%s, JSingle (%s))' % (cstr(j['id']), single_term(sgs[0])))
+    for jid, (places, tags, _) in init_vehicle_singles(problem).items():
+        allj.append(jid)
+        ix.append('(%s, JSingle (%s))' % (cstr(jid), vsingle_term(jid, places, tags)))
+    actors = ['(%s, %s, %d%%nat)' % (cstr(vid), cstr(v['typeId']), si)
+              for v in problem['fleet']['vehicles'] for vid in v['vehicleIds'] for si in range(len(v['shifts']))]
+    tours = []
+    for t in written_tours(written):
+        acts = ['mk_wact %s %s %s (mk_actx %d %d (%d, %d) %s %s)' % (
+            cstr(a['type']), 'true' if a['commute'] else 'false', 'true' if a['transit'] else 'false', a['start'], a['loc'],
+            a['time'][0], a['time'][1], cstr(a['job_id']), 'None' if a['tag'] is None else '(Some %s)' % cstr(a['tag'])) for a in t['acts']]
+        tours.append('mk_wtour %s %s %d%%nat [%s]' % (cstr(t['vid']), cstr(t['type']), t['shift'], '; '.join(acts)))
+    us = ['(%s, %s)' % (cstr(u['jobId']), 'true' if u.get('reasons') else 'false') for u in written.get('unassigned') or []]
+    return 'run_read_init [%s] [%s] [%s] [%s] [%s]' % ('; '.join(ix), '; '.join(actors), '; '.join(cstr(x) for x in allj),
+                                                   '; '.join(tours), '; '.join(us))
+
+
 def init_term(c, impl):
     if not impl or 'panic' in impl or impl.get('status') not in ('ok', 'read-err'):
         return None
@@ -903,12 +1220,87 @@ def init_term(c, impl):
         ctx = 'mk_actx %d %d (%d, %d) %s %s' % (a['start'], a['loc'], a['time'][0], a['time'][1], cstr(a['job_id']),
                                               'None' if a['tag'] is None else '(Some %s)' % cstr(a['tag']))
         terms.append('run_match %s [%s] (%s)' % ('true' if len(sgs) > 1 else 'false', '; '.join(single_term(x) for x in sgs), ctx))
-    return '[' + '; '.join(terms) + ']'
+    # (per-activity matching of the customer activities, the whole document through read_init)
+    return '([' + '; '.join(terms) + '], ' + init_read_term(problem, impl['written']) + ', ' + init_write_term(problem, impl) + ')'
+
+
+ERR_OF = [('commute property', 'ECommute'), ('transit property', 'ETransit'), ('unknown job id', 'EUnknownJob'),
+          ('multi job without unique tags', 'EMultiTags'), ('cannot match job', 'ECannotMatchJob'), ("cannot match '", 'ECannotMatchVehicle'),
+          ('unknown activity type', 'EUnknownType'), ('double assignment', 'EDouble'), ('cannot find vehicle', 'ENoVehicle'),
+          ('cannot get job id for', 'EUnknownUnassigned'), ('cannot get reason for', 'ENoReason')]
+
+
+def err_ctor(err):
+    for text, ctor in ERR_OF:
+        if text in err:
+            return ctor
+    return 'other'
+
+
+def opt_z(v):
+    return None if v == 'None' else v[1]
+
+
+def init_compare_read(c, impl, rd):
+    """the whole-document model (read_init) against read_init_solution: refusal kind, or every reconstructed activity of every
+    tour in document order (job, sub-job, place, location, duration, window, schedule) and the unassigned set"""
+    if impl['status'] == 'read-err':
+        want = err_ctor(impl.get('err', ''))
+        if rd[0] == 'TErr':
+            return None if rd[1] == want else 'implementation refuses with "%s" (%s), model with %s' % (impl.get('err'), want, rd[1])
+        return 'implementation refuses the solution (%s), the model of read_init_solution accepts it' % impl.get('err')
+    if rd[0] == 'TErr':
+        return 'model of read_init_solution refuses the solution (%s), the implementation reads it' % rd[1]
+    routes, unassigned = rd[1], rd[2]
+    back = {(r['vehicle_id'], r['shift']): r for r in impl['back']['routes']}
+    seen = set()
+    for vid, _ty, shift, racts in routes:          # ((vid, type, shift), racts) prints as a flat 4-tuple
+        key = (vid, shift)
+        seen.add(key)
+        r = back.get(key)
+        if r is None:
+            if racts:
+                return 'tour %s: model reads %d activities, the implementation has no such route' % (key, len(racts))
+            continue
+        details = {}
+        for x in r['acts']:
+            details.setdefault((x['job_id'], x['sub']), []).append(x)
+        for x in r['vacts']:
+            details.setdefault((x['job_id'], 0), []).append(x)
+        if len(r['seq']) != len(racts):
+            return 'tour %s: %d activities read back, model has %d' % (key, len(r['seq']), len(racts))
+        for g, m in zip(r['seq'], racts):
+            mkey, msub, mplace, mloc, mdur, mtw, marr, mdep = m          # (key, sub, place, loc, dur, (ws, we), arr, dep)
+            gkey = (g[1], g[2] if len(g) > 2 else 0)
+            if (mkey, msub) != gkey:
+                return 'tour %s: implementation read back %s, model %s' % (key, gkey, (mkey, msub))
+            d = details[gkey].pop(0)
+            if d.get('frac'):
+                continue
+            mine = (mplace, mloc, mdur, mtw[0], opt_z(mtw[1]), marr, mdep)
+            theirs = (d['place'], d['loc'], d['dur'], d['tw'][0], d['tw'][1], d['arr'], d['dep'])
+            if mine != theirs:
+                return 'tour %s job %s: read back (place, loc, dur, window, schedule) %s, model %s' % (key, gkey, theirs, mine)
+    for key, r in back.items():
+        if key not in seen and r['seq']:
+            return 'tour %s: read back by the implementation, absent from the model' % (key,)
+    if sorted(unassigned) != sorted(impl['back']['unassigned']):
+        return 'unassigned read back %s, model %s' % (sorted(impl['back']['unassigned']), sorted(unassigned))
+    return None
 
 
 def init_compare(c, impl, model):
     if 'panic' in impl:
         return 'implementation panicked: %s' % impl['panic']
+    model, rd, wr = model
+    if impl['status'] != 'read-err':
+        d = init_compare_acts(c, impl, model)
+        if d:
+            return d
+    return init_compare_read(c, impl, rd) or init_compare_write(c, impl, wr)
+
+
+def init_compare_acts(c, impl, model):
     problem = json.loads(c['problem'])
     acts = written_activities(problem, impl['written'])
     if len(acts) != len(model):
@@ -960,6 +1352,118 @@ def init_cause(problem, o):
     return 'other'
 
 
+def boundary_pos(ts, te, lo, hi):
+    """where the service interval [ts, te] of an activity sits in the interval [lo, hi] (hi None = open) it was scheduled in"""
+    out = []
+    if hi is not None and ts == hi:
+        out.append('starts-at-latest')
+    if te == lo:
+        out.append('ends-at-earliest')
+    if ts == lo and 'ends-at-earliest' not in out:
+        out.append('starts-at-earliest')
+    if not out:
+        out.append('inside' if (lo < ts and (hi is None or ts < hi)) else 'outside')
+    return '+'.join(out)
+
+
+def init_shapes(problem, impl):
+    """structure of the solver's tours: for every served activity (customer job, break, reload) the kind of the interval
+    it was scheduled in and whether its service interval touches an end of that interval; per (vehicle id, shift)"""
+    vs = init_vehicle_singles(problem)
+    jobs = {j['id']: j for j in problem['plan']['jobs']}
+    out = {}
+    for r in impl.get('orig', {}).get('routes', []):
+        start = r.get('start_dep') or 0
+        per = out.setdefault((r['vehicle_id'], r['shift']), {'vehicle': [], 'customer': []})
+        for x in r.get('vacts', []):
+            places, tags, ty = vs.get(x['job_id'], ([], [], x['type']))
+            ts, te = max(x['arr'], x['tw'][0]), x['dep']
+            kind, pos = 'unknown', 'unknown'
+            if x['place'] < len(places):
+                loc, _dur, spans = places[x['place']]
+                for sp in spans:
+                    lo, hi = (start + sp[1], start + sp[2]) if sp[0] == 'o' else (sp[1], sp[2])
+                    if lo <= ts and (hi is None or ts <= hi):
+                        kind = ('offset' if sp[0] == 'o' else ('window' if hi is not None else 'unbounded'))
+                        pos = boundary_pos(ts, te, lo, hi)
+                        break
+                kind += ('' if loc is not None else ':no-location') + (':tagged' if tags else '')
+            per['vehicle'].append((x['type'], x['job_id'], kind, pos))
+        for x in r.get('acts', []):
+            ts, te = max(x['arr'], x['tw'][0]), x['dep']
+            kind = 'window' if x['tw'][1] is not None else 'unbounded'
+            per['customer'].append((x['job_id'], kind, boundary_pos(ts, te, x['tw'][0], x['tw'][1])))
+    return out
+
+
+def init_offset_break_cause(problem, impl, vid):
+    """two structural situations in which writer and reader count the OFFSET interval of an optional break from different
+    instants (findings C11-F6, C11-F7); None when neither explains why the first break of the vehicle's tour is not matched"""
+    vs = init_vehicle_singles(problem)
+    for t in written_tours(impl['written']):
+        if t['vid'] != vid:
+            continue
+        orig = next((r for r in impl['orig']['routes'] if (r['vehicle_id'], r['shift']) == (t['vid'], t['shift'])), None)
+        if orig is None:
+            continue
+        true_start = orig['start_dep']
+        solver_breaks = [x for x in orig['vacts'] if x['type'] == 'break']
+        reload_seen = False
+        for a in t['acts']:
+            if a['type'] == 'reload':
+                reload_seen = True
+            if a['type'] != 'break' or not solver_breaks:
+                continue
+            x = solver_breaks.pop(0)
+            places, tags, _ = vs.get(x['job_id'], ([], [], 'break'))
+            if x['place'] >= len(places):
+                return None
+            loc, _dur, spans = places[x['place']]
+            sp = spans[0]
+            if sp[0] != 'o':
+                continue
+            ts, te = a['time']
+            own_tag = dict(tags).get(x['place'])
+            fits_true = true_start + sp[1] <= te and ts <= true_start + sp[2]
+            fits_doc = a['start'] + sp[1] <= te and ts <= a['start'] + sp[2]
+            if a['start'] != true_start and fits_true and not fits_doc:
+                # F6: a job served at the start location moved the departure stop's `departure`; the reader counts from it
+                return 'offset-counted-from-the-end-of-the-departure-stop-that-carries-a-job'
+            if reload_seen and own_tag is not None and a['tag'] != own_tag and fits_true:
+                # F7: after a reload the writer looks the tag up with the departure of the activity before the reload
+                return 'tag-of-offset-break-lost-after-a-reload'
+            if not fits_true or (a['tag'] != own_tag):
+                return None
+    return None
+
+
+def init_refusal_class(problem, impl):
+    """structural class of a refused feed-back: which kind of activity could not be matched and how it sits in its interval"""
+    import re
+    err = impl.get('err', '')
+    shapes = init_shapes(problem, impl)
+    m = re.search(r"cannot match '(\w+)' for '([^']*)'", err)
+    if m and m.group(1) == 'break':
+        known = init_offset_break_cause(problem, impl, m.group(2))
+        if known:
+            return 'cannot-match-break:' + known
+    if m:
+        ty, vid = m.group(1), m.group(2)
+        ds = sorted({'%s:%s' % (k, p) for key, per in shapes.items() if key[0] == vid for t, _, k, p in per['vehicle'] if t == ty})
+        return 'cannot-match-%s:%s' % (ty, '|'.join(ds) or 'none-served')
+    m = re.search(r"cannot match job '([^']*)'", err)
+    if m:
+        jid = m.group(1)
+        ds = sorted({'%s:%s' % (k, p) for per in shapes.values() for j, k, p in per['customer'] if j == jid})
+        return 'cannot-match-job:%s' % ('|'.join(ds) or 'not-served')
+    if 'double assignment' in err:
+        m = re.search(r"matched job id: 'Some\(\"([^\"]*)\"\)'", err)
+        jid = m.group(1) if m else ''
+        kind = next((t for t in VEHICLE_SPECIFIC if '_%s_' % t in jid), 'job')
+        return 'double-assignment:%s' % kind
+    return 'other:' + err_ctor(err)
+
+
 def init_oracle(c, impl):
     if 'panic' in impl:
         return [{'class': 'panic:init', 'what': 'panicked: ' + impl['panic']}]
@@ -970,8 +1474,8 @@ def init_oracle(c, impl):
     if st == 'write-err':
         return [{'class': 'init-solution-not-written', 'what': impl.get('err')}]
     if st == 'read-err':
-        kind = 'cannot-match' if 'cannot match' in impl['err'] else ('double-assignment' if 'double assignment' in impl['err'] else 'other')
-        return [{'class': 'init-own-solution-refused:' + kind, 'what': 'read_init_solution refuses the solver\'s own solution: %s' % impl['err']}]
+        return [{'class': 'init-own-solution-refused:' + init_refusal_class(problem, impl),
+                 'what': 'read_init_solution refuses the solver\'s own solution: %s' % impl['err']}]
     v = []
     orig = {(r['vehicle_id'], r['shift']): r['acts'] for r in impl['orig']['routes'] if r['acts']}
     back = {(r['vehicle_id'], r['shift']): r['acts'] for r in impl['back']['routes'] if r['acts']}
@@ -1041,11 +1545,14 @@ def generate(rng, tier, n):
         if r < 22:
             cases.append(gen_csv(rng))
             continue
-        if r < 34:
+        if r < 30:
             cases.append(gen_init(rng))
             continue
+        if r < 44:
+            cases.append(gen_init_boundary(rng))
+            continue
         kind = rng.choice(kinds)
-        mode = 'canon' if r < 55 else ('loose' if r < 83 else 'bad')
+        mode = 'canon' if r < 62 else ('loose' if r < 86 else 'bad')
         c = gen_doc(rng, kind, mode, rr)
         if c:
             cases.append(c)
@@ -1176,6 +1683,17 @@ def classify(c, impl):
         if impl.get('status') == 'ok':
             labs.append('init:unassigned=%s' % ('some' if impl['orig']['unassigned'] else 'none'))
             labs.append('init:activities=%d' % min(6, sum(len(r['acts']) for r in impl['orig']['routes'])))
+        if impl.get('status') in ('ok', 'read-err'):
+            if c.get('scenario'):
+                labs.append('init:scenario=' + c['scenario'])
+            seen = set()
+            for per in init_shapes(json.loads(c['problem']), impl).values():
+                for t, _, k, p in per['vehicle']:
+                    seen.add('init:%s:%s:%s' % (t, k, p))
+                for _, k, p in per['customer']:
+                    if k == 'window':
+                        seen.add('init:job:window:' + p)
+            labs.extend(sorted(seen))
     if c['op'] == 'csv':
         bad = [k for k, v in c['wf'].items() if not v]
         labs.append('csv:' + ('well-formed' if not bad else '+'.join('not-' + b for b in bad)))
